@@ -18,11 +18,22 @@ def load_prop(pid):
     return importlib.import_module("vmon.props." + pid.lower())
 
 
-def _run_shard(pid, cases, timeout):
+HASH_SEEDS = (0, 101, 202)      # str / bytes hashing differs between worker processes: set and dict-of-set iteration orders are part of the schedule
+
+
+def hash_class(case):
+    """which of the HASH_SEEDS a case runs under: a function of the case alone (its index in the generated list), so that a
+    replay - and a run with another number of workers - puts it under the same one"""
+    if "_hashseed" in case:
+        return HASH_SEEDS.index(case["_hashseed"]) if case["_hashseed"] in HASH_SEEDS else 0
+    return int(case.get("_idx", 0)) % len(HASH_SEEDS)
+
+
+def _run_shard(pid, cases, timeout, hashseed=0):
     """One worker subprocess; returns (list of result dicts, status)."""
     env = dict(os.environ)
     env["PYTHONPATH"] = VERIF_DIR + os.pathsep + os.path.join(VERIF_DIR, ".deps")
-    env.setdefault("PYTHONHASHSEED", "0")
+    env["PYTHONHASHSEED"] = str(hashseed)
     env["PYTHONDONTWRITEBYTECODE"] = "1"
     payload = json.dumps({"prop": pid, "cases": cases}, default=jdefault)
     t0 = time.time()
@@ -49,13 +60,24 @@ def run_cases(pid, cases, shard_timeout):
     for i, c in enumerate(cases):
         c["_idx"] = i
     w = max(1, min(MAX_WORKERS, n))
-    # cost-aware round robin: heavy cases first so they spread over workers
-    order = sorted(range(n), key=lambda i: -float(cases[i].get("_cost", 1)))
-    shards = [[] for _ in range(w)]
-    for j, i in enumerate(order):
-        shards[j % w].append(cases[i])
-    with ThreadPoolExecutor(max_workers=w) as ex:
-        outs = list(ex.map(lambda s: _run_shard(pid, s, shard_timeout), shards))
+    # cases are first split by hash class (each worker process has ONE string-hash seed), then, inside a class, dealt over that
+    # class's workers by cost-aware round robin: heavy cases first so they spread
+    classes = {}
+    for i in range(n):
+        classes.setdefault(hash_class(cases[i]), []).append(i)
+    total_cost = sum(float(c.get("_cost", 1)) for c in cases) or 1.0
+    shards, seeds = [], []
+    for hc, idxs in sorted(classes.items()):
+        share = sum(float(cases[i].get("_cost", 1)) for i in idxs) / total_cost
+        wc = max(1, min(len(idxs), int(round(w * share)) or 1))
+        mine = [[] for _ in range(wc)]
+        for j, i in enumerate(sorted(idxs, key=lambda i: -float(cases[i].get("_cost", 1)))):
+            cases[i]["_hashseed"] = HASH_SEEDS[hc]
+            mine[j % wc].append(cases[i])
+        shards += mine
+        seeds += [HASH_SEEDS[hc]] * wc
+    with ThreadPoolExecutor(max_workers=max(1, len(shards))) as ex:
+        outs = list(ex.map(lambda a: _run_shard(pid, a[0], shard_timeout, a[1]), zip(shards, seeds)))
     results, problems = {}, []
     for shard, (res, status, err, wall) in zip(shards, outs):
         for r in res:
@@ -71,7 +93,7 @@ def write_replay(pid, case, result):
     if os.environ.get("VMON_NO_EVIDENCE"):
         d = os.path.join("/tmp", "vmon_mut_replays", pid)
     os.makedirs(d, exist_ok=True)
-    c = {k: v for k, v in case.items() if not k.startswith("_")}
+    c = {k: v for k, v in case.items() if not k.startswith("_") or k == "_hashseed"}
     path = os.path.join(d, digest(c) + ".json")
     with open(path, "w") as f:
         json.dump({"property": pid, "case": c, "result": result, "repo": repo_dir()}, f, indent=1,
@@ -180,6 +202,7 @@ def _main_check(pid, tier, seed, print):
 
     wall = time.time() - t0
     coverage = {
+        "string_hash_seeds_of_the_worker_processes": list(HASH_SEEDS),
         "evaluations": sum(v for k, v in verdicts.items() if k != "lost"),
         "distinct_nontrivial": len(nontrivial_digests),
         "distinct_cases": len(all_digests),
